@@ -814,7 +814,11 @@ def Commandable(
             super(_Commando, self).__init__(**kwargs)
 
             # build a default value in case one is needed
-            default_value = datatype().value
+            if issubclass(datatype, DateTime):
+                # a sequence, not an atomic value
+                default_value = DateTime(date=Date().value, time=Time().value)
+            else:
+                default_value = datatype().value
             if issubclass(datatype, Enumerated):
                 default_value = datatype._xlate_table[default_value]
             if _debug:
